@@ -26,8 +26,13 @@ static inline Timeout sym_timeout()
 }
 template<int ME> static inline __attribute__((always_inline)) void waiter()
 {
+#ifdef SCEN2W   // two queued waiters with fixed demands [2, 1]; only the head's deadline is symbolic (never / finite)
+    uint8_t m = ME == 0 ? 2 : 1;
+    Timeout t = (ME == 0 && nondet_bool()) ? Timeout(100) : Timeout();
+#else
     uint8_t m = nondet_u8(); ASSUME(m >= 1 && m <= 2);
     Timeout t = sym_timeout();
+#endif
     demand[ME] = m; waiting_role[ME] = true;
 #ifdef UNINTERRUPTIBLE
     int r = S.v.wait(m, t);
@@ -40,12 +45,34 @@ template<int ME> static inline __attribute__((always_inline)) void waiter()
     else { CHECK(r == -1, "failure is -1"); CHECK(e == ETIMEDOUT || e == EINTR, "failure reason is the timeout or the interrupter's errno"); }
     CHECK(K_thread(ME)->waitq == nullptr, "a returned waiter is in no wait queue");
 }
+#ifdef GHOST_WAITER
+// A second waiter that is pure queue state: thread object KN-1 never runs; "it called wait(d) and went to sleep" is its whole history
+// (on one vCPU that prefix of wait() is atomic: set semaphore_count, try_subtract fails, enqueue + sleep).  It keeps the scenario at two
+// running threads (three running threads on the real primitive exhaust the solver's memory).
+static bool ghost_queued; static uint64_t ghost_demand;
+static inline void ghost_wait(uint64_t d)
+{
+    if (S.v.count() >= d && INORDER && S.v.q.th == nullptr) return;     // it would not have blocked
+    if (S.v.count() >= d && !INORDER) return;
+    thread* th = K_thread(KN - 1);
+    th->state = states::SLEEPING; th->semaphore_count = d;
+    thread_list* q = (thread_list*)&S.v.q; q->push_back(th); th->waitq = q;
+    K_blocked[KN - 1] = true; K_finite[KN - 1] = false;
+    ghost_queued = true; ghost_demand = d; demand[KN - 1] = d; waiting_role[KN - 1] = true;
+}
+#endif
 template<int ME> static inline __attribute__((always_inline)) void signaller()
 {
+#ifdef GHOST_WAITER
+    { uint8_t d = nondet_u8(); ASSUME(d >= 1 && d <= 2); if (nondet_bool()) ghost_wait(d); }
+#endif
     for (int k = 0; k < NSIG; k++) {
         uint8_t n = nondet_u8(); ASSUME(n <= 2);
         signalled += n;
         S.v.signal(n);
+#if defined(SCEN2W) || defined(GHOST_WAITER)   // the signaller may take a token itself right away (a newcomer that overtakes the woken waiter)
+        if (nondet_bool()) { int r = S.v.wait_interruptible(1, Timeout(0)); if (r == 0) taken += 1; }
+#endif
 #if NSIG > 1
         thread_yield();
 #endif
@@ -67,7 +94,11 @@ void thread_entry_2() { thread_interrupt(K_thread(0), EINTR); }
 #endif
 NOINL void world_init()
 {
+#ifdef SCEN2W
+    uint8_t c = 0;
+#else
     uint8_t c = nondet_u8(); ASSUME(c <= 2);
+#endif
     initial = c;
     new (&S.v) semaphore(c, INORDER);
 }
@@ -96,6 +127,9 @@ NOINL void world_final(uint32_t all_done, uint32_t stuck)
             }
         }
         WITNESS("a waiter can stay blocked when the count never covers its demand");
+#ifdef GHOST_WAITER
+        if (ghost_queued) WITNESS("stuck state with the second (constructed) waiter queued");
+#endif
     }
 }
 }
